@@ -256,6 +256,7 @@ impl Signature {
 
         // According to the specification, "if there are no signature algorithms in the
         // Hello packet, then the string ends without an underscore".
+        let no_extensions = extensions_str.is_empty();
         let ja4_c_raw = if sig_algs_str.is_empty() {
             extensions_str
         } else if extensions_str.is_empty() {
@@ -265,8 +266,19 @@ impl Signature {
         };
 
         // Generate hashes for JA4_b and JA4_c (first 12 characters of SHA256)
-        let ja4_b_hash = hash12(&ja4_b_raw);
-        let ja4_c_hash = hash12(&ja4_c_raw);
+        // An empty cipher or extension list is represented by the all-zero value, not by the
+        // hash of the empty string.
+        const EMPTY_HASH: &str = "000000000000";
+        let ja4_b_hash = if ja4_b_raw.is_empty() {
+            EMPTY_HASH.to_string()
+        } else {
+            hash12(&ja4_b_raw)
+        };
+        let ja4_c_hash = if no_extensions {
+            EMPTY_HASH.to_string()
+        } else {
+            hash12(&ja4_c_raw)
+        };
 
         // JA4 hashed: ja4_a + "_" + ja4_b_hash + "_" + ja4_c_hash
         let ja4_hashed = format!("{ja4_a}_{ja4_b_hash}_{ja4_c_hash}");
